@@ -37,9 +37,82 @@ func (v tval) asDur() time.Duration {
 }
 
 type timeInterp struct {
-	fs  *factSet
-	env map[string]tval
-	now time.Time
+	fs    *factSet
+	env   map[string]tval
+	now   time.Time
+	depth int
+}
+
+// call interprets a package-level helper function (its statements: assignments, `if` with an
+// early return, `return expr`) on evaluated arguments.
+func (ti *timeInterp) call(fd *ast.FuncDecl, args []ast.Expr) tval {
+	sub := &timeInterp{fs: ti.fs, env: map[string]tval{}, now: ti.now, depth: ti.depth + 1}
+	i := 0
+	if fd.Type.Params != nil {
+		for _, f := range fd.Type.Params.List {
+			for _, n := range f.Names {
+				if i >= len(args) {
+					ti.fail(fd, "arity")
+				}
+				sub.env[n.Name] = ti.eval(args[i])
+				i++
+			}
+		}
+	}
+	if v, ok := sub.block(fd.Body.List); ok {
+		return v
+	}
+	ti.fail(fd, "helper without a return value")
+	return tval{}
+}
+
+// block interprets statements until a return; (value, true) if one was reached.
+func (ti *timeInterp) block(list []ast.Stmt) (tval, bool) {
+	for _, st := range list {
+		switch v := st.(type) {
+		case *ast.ReturnStmt:
+			if len(v.Results) != 1 {
+				ti.fail(st, "return shape")
+			}
+			return ti.eval(v.Results[0]), true
+		case *ast.AssignStmt:
+			if len(v.Lhs) != 1 || len(v.Rhs) != 1 {
+				ti.fail(st, "assignment shape")
+			}
+			id, ok := v.Lhs[0].(*ast.Ident)
+			if !ok {
+				ti.fail(st, "assignment target")
+			}
+			ti.env[id.Name] = ti.eval(v.Rhs[0])
+		case *ast.IfStmt:
+			if v.Init != nil {
+				ti.fail(st, "if with init")
+			}
+			c := ti.eval(v.Cond)
+			if c.kind != "bool" {
+				ti.fail(st, "condition")
+			}
+			if c.i == 1 {
+				if r, ok := ti.block(v.Body.List); ok {
+					return r, true
+				}
+			} else if v.Else != nil {
+				switch e := v.Else.(type) {
+				case *ast.BlockStmt:
+					if r, ok := ti.block(e.List); ok {
+						return r, true
+					}
+				default:
+					if r, ok := ti.block([]ast.Stmt{e}); ok {
+						return r, true
+					}
+				}
+			}
+		default:
+			ti.fail(st, "statement")
+		}
+	}
+	return tval{}, false
 }
 
 func (ti *timeInterp) fail(n ast.Node, why string) {
@@ -118,6 +191,26 @@ func (ti *timeInterp) eval(e ast.Expr) tval {
 		x, y := int64(a.asDur()), int64(b.asDur())
 		var r int64
 		switch v.Op {
+		case token.LSS, token.LEQ, token.GTR, token.GEQ, token.EQL, token.NEQ:
+			var t bool
+			switch v.Op {
+			case token.LSS:
+				t = x < y
+			case token.LEQ:
+				t = x <= y
+			case token.GTR:
+				t = x > y
+			case token.GEQ:
+				t = x >= y
+			case token.EQL:
+				t = x == y
+			default:
+				t = x != y
+			}
+			if t {
+				return tval{kind: "bool", i: 1}
+			}
+			return tval{kind: "bool", i: 0}
 		case token.ADD:
 			r = x + y
 		case token.SUB:
@@ -142,6 +235,18 @@ func (ti *timeInterp) eval(e ast.Expr) tval {
 		}
 		return tval{kind: "dur", d: time.Duration(r)}
 	case *ast.CallExpr:
+		if id, ok := v.Fun.(*ast.Ident); ok {
+			switch id.Name {
+			case "int64", "int":
+				if len(v.Args) == 1 {
+					return tval{kind: "int", i: int64(ti.eval(v.Args[0]).asDur())}
+				}
+			}
+			if fd, ok := ti.fs.funcs[id.Name]; ok && ti.depth < 4 {
+				return ti.call(fd, v.Args)
+			}
+			ti.fail(e, "call of an unknown function")
+		}
 		sel, ok := v.Fun.(*ast.SelectorExpr)
 		if !ok {
 			ti.fail(e, "call")
@@ -185,6 +290,34 @@ func (ti *timeInterp) eval(e ast.Expr) tval {
 					ti.fail(e, "Sub of a non-time")
 				}
 				return tval{kind: "dur", d: recv.t.Sub(a.t)}
+			case "UnixNano":
+				return tval{kind: "int", i: recv.t.UnixNano()}
+			case "UnixMicro":
+				return tval{kind: "int", i: recv.t.UnixMicro()}
+			case "UnixMilli":
+				return tval{kind: "int", i: recv.t.UnixMilli()}
+			case "Unix":
+				return tval{kind: "int", i: recv.t.Unix()}
+			case "Nanosecond":
+				return tval{kind: "int", i: int64(recv.t.Nanosecond())}
+			case "Before", "After", "Equal":
+				a := one()
+				if a.kind != "time" {
+					ti.fail(e, "comparison with a non-time")
+				}
+				t := false
+				switch sel.Sel.Name {
+				case "Before":
+					t = recv.t.Before(a.t)
+				case "After":
+					t = recv.t.After(a.t)
+				default:
+					t = recv.t.Equal(a.t)
+				}
+				if t {
+					return tval{kind: "bool", i: 1}
+				}
+				return tval{kind: "bool", i: 0}
 			}
 		case "dur", "int":
 			switch sel.Sel.Name {
@@ -220,29 +353,59 @@ func timerDelay(fs *factSet, fn string, now time.Time, d time.Duration) (delay t
 		return 0, "no duration parameter"
 	}
 	ti.env[fd.Type.Params.List[0].Names[0].Name] = tval{kind: "dur", d: d}
-	for _, st := range fd.Body.List {
-		as, ok := st.(*ast.AssignStmt)
-		if !ok {
-			if _, isRet := st.(*ast.ReturnStmt); isRet {
-				return 0, "the timer is not armed when the command is created (no time.NewTimer before the return)"
+	// the first call of time.NewTimer outside a function literal, in statement order
+	findTimer := func(n ast.Node) ast.Expr {
+		var arg ast.Expr
+		ast.Inspect(n, func(x ast.Node) bool {
+			if arg != nil {
+				return false
 			}
-			ti.fail(st, "statement")
-		}
-		if len(as.Lhs) != 1 || len(as.Rhs) != 1 {
-			ti.fail(st, "assignment shape")
-		}
-		lhs, ok := as.Lhs[0].(*ast.Ident)
-		if !ok {
-			ti.fail(st, "assignment target")
-		}
-		if call, ok := as.Rhs[0].(*ast.CallExpr); ok {
-			if sel, ok := call.Fun.(*ast.SelectorExpr); ok {
-				if id, ok := sel.X.(*ast.Ident); ok && id.Name == "time" && sel.Sel.Name == "NewTimer" && len(call.Args) == 1 {
-					return ti.eval(call.Args[0]).asDur(), ""
+			switch v := x.(type) {
+			case *ast.FuncLit:
+				return false
+			case *ast.CallExpr:
+				if sel, ok := v.Fun.(*ast.SelectorExpr); ok {
+					if id, ok := sel.X.(*ast.Ident); ok && id.Name == "time" && sel.Sel.Name == "NewTimer" && len(v.Args) == 1 {
+						arg = v.Args[0]
+						return false
+					}
 				}
 			}
+			return true
+		})
+		return arg
+	}
+	for _, st := range fd.Body.List {
+		if arg := findTimer(st); arg != nil {
+			return ti.eval(arg).asDur(), ""
 		}
-		ti.env[lhs.Name] = ti.eval(as.Rhs[0])
+		switch v := st.(type) {
+		case *ast.ReturnStmt:
+			return 0, "the timer is not armed when the command is created (no time.NewTimer before the return)"
+		case *ast.AssignStmt:
+			if len(v.Lhs) != 1 || len(v.Rhs) != 1 {
+				ti.fail(st, "assignment shape")
+			}
+			lhs, ok := v.Lhs[0].(*ast.Ident)
+			if !ok {
+				ti.fail(st, "assignment target")
+			}
+			ti.env[lhs.Name] = ti.eval(v.Rhs[0])
+		case *ast.IfStmt:
+			// a guard with an early return (e.g. a non-positive duration)
+			c := ti.eval(v.Cond)
+			if c.kind != "bool" {
+				ti.fail(st, "condition")
+			}
+			if c.i == 1 {
+				if arg := findTimer(v.Body); arg != nil {
+					return ti.eval(arg).asDur(), ""
+				}
+				return 0, "the timer is not armed when the command is created (guarded early return)"
+			}
+		default:
+			ti.fail(st, "statement")
+		}
 	}
 	return 0, "no time.NewTimer call"
 }
